@@ -13,10 +13,16 @@ let cfg_of = function
   | "both" -> Some { allow = Some ["A"; "B"; "A2"]; deny = Some ["A2"] }
   | _ -> None
 
+(* the device log of account A at each phase, as the harness builds it; the trusted set is its replay by the
+   extracted [reduce_devices]: d3 is trusted, revoked and trusted again before phase 0; phase 1 appends
+   Revoke(d1) and a second Revoke(d3); phase 2 rewinds the log to [Trust d0; Trust d1] and appends a new device *)
+let device_log phase =
+  let pre = [DevTrust "d0"; DevTrust "d1"; DevTrust "d2"; DevTrust "d3"; DevRevoke "d3"; DevTrust "d3"] in
+  if phase = 0 then pre
+  else if phase = 1 then pre @ [DevRevoke "d1"; DevRevoke "d3"]
+  else [DevTrust "d0"; DevTrust "d1"; DevTrust "c"]
 let trusted phase = function
-  (* the trusted set is the replay of the device log: phase 1 appends Revoke(d1); phase 2 rewinds the log to
-     [Trust d0; Trust d1] (cutting off Trust d2 and Revoke d1) and appends a new device *)
-  | "A" -> Some (if phase = 0 then ["d0"; "d1"; "d2"] else if phase = 1 then ["d0"; "d2"] else ["d0"; "d1"; "c"])
+  | "A" -> Some (reduce_devices String.equal (device_log phase))
   | "B" -> Some ["bk"]
   | _ -> None
 
@@ -33,6 +39,7 @@ let request_of cred : (string, string * string, string) auth_request =
   | "unknown" -> r (Some "A") (TokSig ("unk", "m"))
   | "revoked" -> r (Some "A") (TokSig ("d1", "m"))
   | "dropped" -> r (Some "A") (TokSig ("d2", "m"))
+  | "rerevoked" -> r (Some "A") (TokSig ("d3", "m"))
   | "otherbytes" -> r (Some "A") (TokSig ("d0", "m'"))
   | "otheracct" -> r (Some "A") (TokSig ("bk", "m"))
   | "toB" -> r (Some "B") (TokSig ("d0", "m"))
